@@ -49,10 +49,12 @@ def gen(tier, rng):
     fixed = [[0, 1], [0, 5], [1, 1], [1, 3], [2, 1], [2, 3, 1, 2], [3, [-2, -2]], [3, [-1, 1], [0, 2]],
              [5, [0, 3]], [6, [0, 2], [0, 3]], [6, [0, 3], [5, [2, 2, 2], [3, [-1, 1], [0, 1]]]],
              [5, [6, [1, 2], [0, 3]], [6, [5, [0, 2]], [3, [5, 7]]]],
-             [4, [0, 1024]], [6, [0, 2], [4, [-512, 512]]]]
+             [4, [0, 1024]], [6, [0, 2], [4, [-512, 512]]], [7, 0, [0, 3], [0, 3]], [7, 2, [0, 3]],
+             [6, [0, 2], [7, 1, [-2, 2]]], [6, [0, 3], [0, 2]], [6, [1, 1], [0, 3], [2, 2, 3]]]
     specs = list(fixed)
     while len(specs) < n_spaces:
-        specs.append(S.random_spec(rng, rng.choice([0, 1, 2, 2, 3]), allow_float=(rng.random() < 0.05)))
+        specs.append(S.random_spec(rng, rng.choice([0, 1, 2, 2, 3]), allow_float=(rng.random() < 0.05),
+                                   narrow=(rng.random() < 0.08)))
     for spec in specs:
         key = repr(spec)
         if key in seen:
